@@ -798,6 +798,49 @@ pub fn product<T: BFlavor>(prop: &'static str, mon: u32, tier: Tier) -> (Acc, Va
     (acc, rep)
 }
 
+/// Relational product: the fields take their values from a tiny set whose members are equal to,
+/// prefixes of, or concatenations of each other (`a`, `b`, `a/b`, `a/b/c`, `a/b/a/b/c`, `g`, `g:a`, `a:b`,
+/// `a@b`), in ALL assignments to namespace, name, version, subpath and a qualifier value, for every
+/// type: whatever relation between two components a rule might key on, it occurs.
+pub fn relational_product<T: BFlavor>(prop: &'static str, mon: u32) -> (Acc, Value) {
+    const REL: [&str; 10] = ["", "a", "b", "a/b", "a/b/c", "a/b/a/b/c", "g", "g:a", "a:b", "a@b"];
+    let types = T::type_universe();
+    let n = REL.len();
+    let acc = par_items(n * n, threads(), |i, acc| {
+        let (a, b) = (i / n, i % n);
+        for c in 0..n {
+            for d in 0..n {
+                for (qi, qv) in [None, Some(REL[a]), Some(REL[d])].iter().enumerate() {
+                    if qi > 0 && qv.map(str::is_empty).unwrap_or(true) {
+                        continue;
+                    }
+                    for ty in &types {
+                        acc.evals += 1;
+                        let mut refb = RefBuilder { ty: ty.clone(), ns: REL[a].into(), name: REL[b].into(), version: REL[c].into(), subpath: REL[d].into(), quals: BTreeMap::new() };
+                        if let Some(v) = qv {
+                            refb.quals.insert("k".into(), (*v).to_owned());
+                        }
+                        let trace = || json!({"engine": format!("{}-product", T::MODEL), "ty": ty, "ns": refb.ns, "name": refb.name, "version": refb.version, "subpath": refb.subpath, "quals": refb.quals.iter().map(|(k, v)| json!([k, v])).collect::<Vec<_>>()});
+                        let r = guarded(|| {
+                            let mut bld = GenericPurlBuilder::new(T::make(ty), refb.name.as_str()).with_namespace(refb.ns.as_str()).with_version(refb.version.as_str()).with_subpath(refb.subpath.as_str());
+                            for (k, v) in &refb.quals {
+                                bld = bld.with_qualifier(k.as_str(), v.as_str()).expect("valid key");
+                            }
+                            check_build(prop, mon, &bld, &refb, &trace, acc);
+                        });
+                        if let Err(m) = r {
+                            acc.violate(Violation { prop: "C06", kind: "panic".into(), case: trace(), detail: m });
+                        }
+                        acc.nontrivial += 1;
+                    }
+                }
+            }
+        }
+    });
+    let rep = json!({"engine": "C-product", "model": T::MODEL, "instance": "relational (values that are equal to, prefixes of or concatenations of each other, all assignments)", "values": REL, "types": types.len(), "builds": acc.evals});
+    (acc, rep)
+}
+
 /// Every Unicode scalar value inside each field (namespace, name, version, qualifier value, subpath),
 /// through the full C09 oracle: build, accessors, print, re-parse.
 pub fn scalar_fields<T: BFlavor>(prop: &'static str) -> (Acc, Value) {
